@@ -120,6 +120,86 @@ def random_plan(cfg, rng, max_steps=400):
     return None
 
 
+def exact_best_plan(cfg, max_states=60000):
+    """Exact maximum total reward of a goal-reaching history in the reference
+    model (all draws succeed), by memoised search over the monotone state
+    graph.  Only for small configurations; None when the budget is exceeded
+    or the goal is unreachable.  -> (total, plan)"""
+    import sys
+    order = cfg.order
+    memo = {}
+    NEG = float("-inf")
+
+    def actions(st):
+        out = []
+        for h in order:
+            if st[h][0] and st[h][3] >= 1 and any(
+                    not st[x][2] for x in model.scan_discovers(cfg, h)):
+                out.append(model.Act("subnet_scan", h, "subnet_scan",
+                                     cfg.scan_cost["subnet_scan"], 1.0, 1,
+                                     None, None, None, None))
+            if not model.visible(st, h) or st[h][3] >= 2:
+                continue
+            for name, e in cfg.exploits.items():
+                if e["access"] <= st[h][3] or e["prob"] <= 0:
+                    continue
+                a = model.Act("exploit", h, name, e["cost"], e["prob"], 1,
+                              e["service"], None, e["os"], e["access"])
+                if model.host_pre(cfg, st, a) and model.net_pre(cfg, st, a):
+                    out.append(a)
+            if st[h][0]:
+                for name, pe in cfg.privescs.items():
+                    if pe["access"] <= st[h][3] or pe["prob"] <= 0:
+                        continue
+                    a = model.Act("privesc", h, name, pe["cost"], pe["prob"],
+                                  1, None, pe["process"], pe["os"],
+                                  pe["access"])
+                    if model.host_pre(cfg, st, a) and \
+                            model.net_pre(cfg, st, a):
+                        out.append(a)
+        return out
+
+    class Budget(Exception):
+        pass
+
+    def f(st):
+        key = tuple(st[h] for h in order)
+        if key in memo:
+            return memo[key]
+        if len(memo) > max_states:
+            raise Budget()
+        best = (0.0, None) if model.goal(cfg, st) else (NEG, None)
+        for a in actions(st):
+            nxt, val = model.apply_success(cfg, st, a)
+            sub = f(nxt)[0]
+            if sub == NEG:
+                continue
+            tot = val - a.cost + sub
+            if tot > best[0]:
+                best = (tot, a)
+        memo[key] = best
+        return best
+    old = sys.getrecursionlimit()
+    sys.setrecursionlimit(10000)
+    try:
+        st = model.initial_status(cfg)
+        total, _ = f(st)
+        if total == NEG:
+            return None
+        plan = []
+        while True:
+            t, a = f(st)
+            if a is None:
+                break
+            plan.append(a)
+            st, _ = model.apply_success(cfg, st, a)
+        return total, plan
+    except Budget:
+        return None
+    finally:
+        sys.setrecursionlimit(old)
+
+
 def c20_spec(rng, idx):
     if idx < len(configs.SHIPPED):
         return {"kind": "benchmark", "name": configs.SHIPPED[idx]}
@@ -225,6 +305,12 @@ def c20_execute(trace, tier, res):
                         plans.append(p)
             else:
                 counters.hit("skip.model_unsolvable")
+            if plans and len(cfg.order) <= 6:
+                ex = exact_best_plan(cfg)
+                if ex is not None:
+                    plans.insert(0, ex[1])
+                    trace["exact_model_optimum"] = ex[0]
+                    counters.hit("probe.exact_model_optimum")
             plans = [[[a.kind, list(a.target), a.name] for a in p]
                      for p in plans]
             trace["plans"] = plans
